@@ -26,8 +26,9 @@ ASSUMPTIONS = [
     "pandas round trips are checked for column types pandas can carry (no list-valued or quality columns).",
 ]
 REQUIRED_CLASSES = ["table-read-from-file", "dict-roundtrip", "bam", "concat", "sort_by", "replace", "add_fields", "pandas", "from_entry_tuples", "bad-construction", "empty-operand", "single-row-operand",
-                    "dynamic-class", "nested-table", "mixed-dtype-concat", "int-index", "rows-taken-by-tolist-first", "text-column-given-as-64-bit-character-codes", "results-reach-later-steps-unread", "concatenation-starting-from-an-empty-table"]
-BOUNDS = {"quick": "300 programs of up to 12 steps for each of 16 table types, tables of up to 6 rows", "thorough": "4000 programs of up to 30 steps per type, tables of up to 20 rows"}
+                    "dynamic-class", "nested-table", "mixed-dtype-concat", "int-index", "rows-taken-by-tolist-first", "text-column-given-as-64-bit-character-codes", "results-reach-later-steps-unread", "concatenation-starting-from-an-empty-table",
+                    "nested-table-in-a-table-or-text-column"]
+BOUNDS = {"quick": "300 programs of up to 12 steps for each of 17 table types, tables of up to 6 rows", "thorough": "4000 programs of up to 30 steps per type, tables of up to 20 rows"}
 BUDGET_S = {"quick": 200, "thorough": 1500}
 
 # types without float columns that are read lazily from their text format: used for the 'table as read from a file' variant
@@ -43,6 +44,8 @@ DYNAMIC = {
     "dyn_mixed": [("label", "str"), ("ident", "id"), ("count", "int"), ("weight", "float"), ("flag", "bool"), ("opt", "int"), ("items", "ilist"), ("dna", "dna")],
     "dyn_numeric": [("a", "int"), ("b", "float"), ("c", "bool")],
     "dyn_nested": [("name", "id"), ("where", "nested"), ("score", "float")],
+    # a column declared as 'a table or text' (the way VCFEntry declares its INFO column) that holds a table
+    "dyn_nested_union": [("name", "id"), ("filter", "str"), ("where", "nested")],
 }
 
 
@@ -74,6 +77,10 @@ def dataclass_of(tname):
         return c03._load(c03.TYPES[tname][0])
     if tname not in _DYN_CACHE:
         tmap = {"str": str, "id": SequenceID, "int": int, "float": float, "bool": bool, "ilist": List[int], "dna": bnp.DNAEncoding, "nested": Interval}
+        if tname == "dyn_nested_union":
+            from typing import Union
+            from bionumpy.bnpdataclass import BNPDataClass
+            tmap["nested"] = Union[BNPDataClass, str]
         fields = [(n, Optional[int] if n == "opt" else tmap[k]) for n, k in DYNAMIC[tname]]
         _DYN_CACHE[tname] = make_dataclass(fields, "Dyn" + tname)
     return _DYN_CACHE[tname]
@@ -196,8 +203,10 @@ def classify(case):
         cl.append("text-column-given-as-64-bit-character-codes")
     if tname in DYNAMIC:
         cl.append("dynamic-class")
-    if tname == "dyn_nested":
+    if tname.startswith("dyn_nested"):
         cl.append("nested-table")
+    if tname == "dyn_nested_union":
+        cl.append("nested-table-in-a-table-or-text-column")
     if len(case["rows"]) == 0 or any(op["op"] == "mask" and not any(op["bits"]) for op in case["program"]):
         cl.append("empty-operand")
     if len(case["rows"]) == 1:
